@@ -25,6 +25,7 @@ inductive Entry
   | suicide (a : Nat) (prevS : Bool) (prevBal : Nat)  -- suicideChange
   | accAddr (a : Nat)                                 -- accessListAddAccountChange
   | accSlot (a k : Nat)                               -- accessListAddSlotChange
+  | reset (a : Nat) (prev : Obj)                      -- resetObjectChange (CreateAccount over an existing object)
 
 def Entry.dirtied : Entry → Option Nat
   | .create a => some a
@@ -87,6 +88,7 @@ inductive MOp
   | suicide (a : Nat)
   | accAddr (a : Nat)
   | accSlot (a k : Nat)
+  | createAccount (a : Nat)         -- StateDB.CreateAccount (CREATE / CREATE2 target): a fresh object, the balance carried over
 
 /-- getStateObject caches what it loads: a later bank-side change of the account is not seen through the cache -/
 def DB.load (db : DB) (a : Nat) : DB :=
@@ -104,6 +106,7 @@ def MOp.addr : MOp → Option Nat
   | .setNonce a _ => some a
   | .setState a _ _ => some a
   | .suicide a => some a
+  | .createAccount a => some a
   | _ => none
 
 def mstepCore (db : DB) : MOp → DB
@@ -134,6 +137,12 @@ def mstepCore (db : DB) : MOp → DB
   | .accAddr a => if db.accA a then db else { db.push (.accAddr a) with accA := upd db.accA a true }
   | .accSlot a k =>
     if db.accS a k then db else { db.push (.accSlot a k) with accS := upd db.accS a (upd (db.accS a) k true) }
+  | .createAccount a =>
+    match db.get a with
+    | none => (db.push (.create a)).setObj a { bal := 0, nonce := 0, suicided := false, stor := db.k.store a }
+    | some prev =>
+      -- resetObjectChange marks nothing dirty; the new object reads committed storage, the balance is carried over
+      (db.push (.reset a prev)).setObj a { bal := prev.bal, nonce := 0, suicided := false, stor := db.k.store a }
 
 def mstep (db : DB) (op : MOp) : DB :=
   match op.addr with
@@ -151,6 +160,7 @@ def undo (db : DB) : Entry → DB
   | .suicide a prevS prevBal => (match db.get a with | some o => db.setObj a { o with suicided := prevS, bal := prevBal } | none => db)
   | .accAddr a => { db with accA := upd db.accA a false }
   | .accSlot a k => { db with accS := upd db.accS a (upd (db.accS a) k false) }
+  | .reset a prev => db.setObj a prev
 
 /-- undo the newest journal entry and lower the dirty count of the address it touched -/
 def undoTop (db : DB) (e : Entry) : DB :=
@@ -209,6 +219,7 @@ def addRefund (db : DB) (g : Nat) : DB := mstep db (.setRefund (db.refund + g))
 def subRefund (db : DB) (g : Nat) : DB := mstep db (.setRefund (db.refund - g))
 def addLog (db : DB) : DB := mstep db .addLog
 def suicide (db : DB) (a : Nat) : DB := mstep db (.suicide a)
+def createAccount (db : DB) (a : Nat) : DB := mstep db (.createAccount a)
 def addAddressToAccessList (db : DB) (a : Nat) : DB := mstep db (.accAddr a)
 def addSlotToAccessList (db : DB) (a k : Nat) : DB := mstep (mstep db (.accAddr a)) (.accSlot a k)
 
